@@ -19,7 +19,11 @@ import datetime
 import importlib
 import inspect
 import pkgutil
+import copy
+import decimal
 import enum
+import fractions
+import pickle
 import struct
 import sys
 import zlib
@@ -295,29 +299,14 @@ def real_frameobs(line):
     cls_, id_, pl, period = int(p[1]), int(p[2]), bytes.fromhex(p[3]), max(1, int(p[4]))
     f = make_frame(cls_, id_)
     f.data = bytearray(pl)
-    state = {'n': 0, 'busy': False}
+    other = make_frame((cls_ + 1) % 256, (id_ + 7) % 256)
+    other.data = bytearray(b'\x55\xaa' * 9)
 
-    def local(frm, event, arg):
-        if event == 'line' and not state['busy']:
-            state['n'] += 1
-            if state['n'] == period:
-                state['busy'] = True
-                try:
-                    repr(f), str(f), repr(vars(f))
-                except Exception:
-                    pass
-                finally:
-                    state['busy'] = False
-        return local
-
-    def tracer(frm, event, arg):
-        return local if 'ubxlib' in frm.f_code.co_filename else None
+    def look():
+        repr(f), str(f), repr(vars(f))
+        other.to_bytes()                      # …and another frame object is serialised in the middle of this one
     try:
-        sys.settrace(tracer)
-        try:
-            b1 = bytes(f.to_bytes())
-        finally:
-            sys.settrace(None)
+        b1 = bytes(realenv.interleaved(f.to_bytes, period, look))
         b2 = bytes(f.to_bytes())
     except Exception as e:
         return 'EXC:' + exc_name(e)
@@ -461,6 +450,11 @@ def real_ckil(line):
     for op in line.split('|', 1)[1].split(';'):
         if op == 'N':
             objs.append(Checksum())
+        elif op[0] == 'C':
+            # a fork: a copy of object k, taken in the middle of its accumulation (copy.copy / deepcopy / a pickle round trip),
+            # is one more object from here on - feeding the one must not show in the other
+            k, how = op[1:].split(':')
+            objs.append([copy.copy, copy.deepcopy, lambda x: pickle.loads(pickle.dumps(x))][int(how) % 3](objs[int(k)]))
         elif op[0] == 'A':
             k, h = op[1:].split(':')
             for x in bytes.fromhex(h):
@@ -539,6 +533,8 @@ def oracles_ck(line, real_out):
         for op in p[1].split(';'):
             if op == 'N':
                 objs.append(bytearray())
+            elif op[0] == 'C':
+                objs.append(bytearray(objs[int(op[1:].split(':')[0])]))
             elif op[0] == 'A':
                 k, h = op[1:].split(':')
                 objs[int(k)] += bytes.fromhex(h)
@@ -589,8 +585,11 @@ def gen_ck(rng, n, profile):
         ops, nobj = ['N'], 1
         for _ in range(rng.randrange(4, 14)):
             k = rng.random()
-            if k < 0.2:
+            if k < 0.12:
                 ops.append('N')
+                nobj += 1
+            elif k < 0.22:
+                ops.append(f'C{rng.randrange(nobj)}:{rng.randrange(3)}')
                 nobj += 1
             elif k < 0.3:
                 ops.append(f'R{rng.randrange(nobj)}')
@@ -657,12 +656,29 @@ def payload_for(rng, name):
     return bytes(pl)
 
 
+def model_line_fields(line):
+    p = line.split('|')
+    return '|'.join(['fields'] + p[1:3]) if p[0] == 'fieldsobs' else line
+
+
 def real_fields(line):
-    _, name, h = line.split('|')
+    parts = line.split('|')
+    name, h = parts[1], parts[2]
     pl = bytes.fromhex(h)
     given = bytearray(pl)
+    cls = find_class(name)
     try:
-        f = find_class(name).construct(given)
+        if parts[0] == 'fieldsobs':
+            # another frame of the same class - with another number of blocks, where the class has blocks - is decoded and encoded
+            # in the middle of this decode (at the n-th line executed)
+            other = other_payload(name, pl)
+
+            def meanwhile():
+                g = cls.construct(bytearray(other))
+                g.pack()
+            f = realenv.interleaved(lambda: cls.construct(given), int(parts[3]), meanwhile)
+        else:
+            f = cls.construct(given)
     except Exception as e:
         return 'EXC:' + exc_name(e)
     if bytes(given) != pl or bytes(f.data) != pl:
@@ -673,6 +689,26 @@ def real_fields(line):
         return dec + ' pack=' + bytes(f.data).hex()
     except Exception as e:
         return dec + ' pack=EXC:' + exc_name(e)
+
+
+def other_payload(name, pl):
+    """a well-formed payload of the same class that differs from `pl` in every byte and, for the classes with repeated blocks,
+    in the number of blocks"""
+    n = blocks_of(name, pl)
+    m = (n + 2) % 5 if name in COUNT_AT else n
+    if name == 'UbxCfgGnss':
+        out = bytearray((b ^ 0x5A) for b in pl[:4]) + bytes([0x33]) * (8 * m)
+    elif name == 'UbxCfgEsfla':
+        out = bytearray((b ^ 0x5A) for b in pl[:4]) + bytes([0x33]) * (8 * m)
+    elif name == 'UbxEsfStatus':
+        out = bytearray((b ^ 0x5A) for b in pl[:16]) + bytes([0x33]) * (4 * m)
+    elif name == 'UbxMonVer':
+        return bytes(b'OTHER VERSION'.ljust(30, b'\x00') + b'HW2'.ljust(10, b'\x00') + b'EXT'.ljust(30, b'\x00') * ((n + 1) % 3))
+    else:
+        return bytes((b ^ 0x5A) & 0x7F for b in pl)
+    if name in COUNT_AT and len(out) > COUNT_AT[name]:
+        out[COUNT_AT[name]] = m
+    return bytes(out)
 
 
 def api_values(name, pl, spec_names=None):
@@ -686,7 +722,7 @@ def api_values(name, pl, spec_names=None):
 
 
 def oracles_fields(line, real_out):
-    _, name, h = line.split('|')
+    _, name, h = model_line_fields(line).split('|')
     pl = bytes.fromhex(h)
     if not wellformed(name, pl):
         return [], []
@@ -747,29 +783,52 @@ def gen_fields(rng, n, profile):
                 yield f'fields|{name}|' + bytes(pl).hex()
         for _ in range(n):
             yield f'fields|{name}|' + payload_for(rng, name).hex()
+        for at in (1, 2, 4, 7, 11, 16, 22, 29, 37, 50, 70):
+            pl = payload_for(rng, name)
+            if wellformed(name, pl):
+                yield f'fieldsobs|{name}|{pl.hex()}|{at}'
 
 
 # ---- a user's item type ---------------------------------------------------------------------------------
 def real_subitem(line):
-    """an item type derived from one of the library's, with another `fmt` - after the parent type has been used"""
+    """an item type derived from one of the library's, with another `fmt` - after the parent type has been used - standing in a
+    Fields container like any other item: assigned through the attribute, read back, packed by the container, decoded again.
+    The variant says what else the user's class defines: nothing, a __bool__ that is False, a __len__ that is 0, an __eq__ that
+    says yes to everything - none of which is the container's business"""
     import ubxlib.types as T
-    _, parent, fmt, v = line.split('|')
+    parts = line.split('|')
+    parent, fmt, v = parts[1], parts[2], int(parts[3])
+    variant = parts[4] if len(parts) > 4 else 'plain'
     P = getattr(T, parent)
     try:
         warm = P('warm')
         warm.value = 1
         warm.unpack(bytearray(warm.pack()) + bytes(8))
-        Sub = type('My' + parent, (P,), {'fmt': fmt})
-        it = Sub('x')
-        it.value = int(v)
+        extra = {'plain': {}, 'falsy': {'__bool__': lambda self: False}, 'len0': {'__len__': lambda self: 0},
+                 'eqall': {'__eq__': lambda self, other: True, '__hash__': lambda self: 7}}[variant]
+        Sub = type('My' + parent, (P,), dict(extra, fmt=fmt))
+        box = T.Fields()
+        box.add(T.U1('before'))
+        box.add(Sub('x'))
+        box.add(T.U1('after'))
+        box.before, box.after = 0x11, 0x22
+        box.x = v
+        if box.x != v or box.get('x').value != v:
+            return 'not-assigned'
         try:
-            data = bytes(it.pack())
+            data = bytes(box.pack())
         except Exception as e:
             return 'pack=EXC:' + exc_name(e)
-        back = Sub('y')
+        if data[:1] != b'\x11' or data[-1:] != b'\x22':
+            return 'neighbours-changed:' + data.hex()
+        data = data[1:-1]
+        back = T.Fields()
+        back.add(T.U1('before'))
+        back.add(Sub('x'))
+        back.add(T.U1('after'))
         try:
-            n = back.unpack(bytearray(data))
-            return f'pack={data.hex()} back={show(back.value)} n={n}'
+            back.unpack(bytearray(b'\x11' + data + b'\x22'))
+            return f'pack={data.hex()} back={show(back.x)} n={len(data)}'
         except Exception as e:
             return f'pack={data.hex()} back=EXC:' + exc_name(e)
     except Exception as e:
@@ -777,7 +836,7 @@ def real_subitem(line):
 
 
 def oracles_subitem(line, real_out):
-    _, parent, fmt, v = line.split('|')
+    _, parent, fmt, v = line.split('|')[:4]
     v, w = int(v), struct.calcsize('<' + fmt)
     lo, hi = (-(1 << (8 * w - 1)), (1 << (8 * w - 1)) - 1) if fmt.islower() else (0, (1 << 8 * w) - 1)
     if not lo <= v <= hi:
@@ -794,6 +853,8 @@ def gen_subitem(rng, n, profile):
             lo, hi = (-(1 << (8 * w - 1)), (1 << (8 * w - 1)) - 1) if fmt.islower() else (0, (1 << 8 * w) - 1)
             for v in (lo, hi, 1, hi // 3, lo - 1, hi + 1):
                 yield f'subitem|{parent}|{fmt}|{v}'
+            for variant in ('falsy', 'len0', 'eqall'):
+                yield f'subitem|{parent}|{fmt}|{rng.choice([1, hi, hi // 3])}|{variant}'
 
 
 # ---- one text item ------------------------------------------------------------------------------------
@@ -964,12 +1025,24 @@ def boundary_values(rng, kind, w):
                 'é' * (w // 2), 'é' * (w // 2 + 1), ('µ' + 'A' * w)[:w - 1], '€'[:w // 3] + 'x' * (w % 3), '😀' * (w // 4 + (1 if w % 4 else 0))]
         return [('s:' + v.encode().hex()) for v in vals]
     bits = 8 * w
-    vs = [0, 1, 2, (1 << (bits - 1)) - 1, 1 << (bits - 1), (1 << bits) - 1, 1 << bits, -1, -(1 << (bits - 1)), -(1 << (bits - 1)) - 1,
+    vs = [0, 1, 2, (1 << (bits - 1)) - 1, 1 << (bits - 1), (1 << bits) - 1, 1 << bits, -1, -2, -(1 << (bits - 1)), -(1 << (bits - 1)) - 1,
           rng.randrange(1 << bits), -rng.randrange(1 << (bits - 1))]
     return [str(v) for v in vs]
 
 
 def gen_assign(rng, n, profile):
+    # a frame that was encoded once, then ONE signed field changed between two values with the same hash() (-1 / -2), encoded again
+    for name, size in CLASSES.items():
+        if not size:
+            continue
+        try:
+            kinds = field_kinds(name, bytes([0xff]) * size)
+        except Exception:
+            continue
+        for fname, k, w in kinds:
+            if k != 'text' and k.islower():
+                yield f'assign|{name}|{"ff" * size}|{fname}|-2|{rng.choice(["PA", "PG"])}'
+                yield f'assign|{name}|{"fe" + "ff" * (size - 1) if False else "ff" * size}|{fname}|-2|PA'
     for name in CLASSES:
         for _ in range(max(1, n // 10)):
             pl = payload_for(rng, name)
@@ -1110,9 +1183,28 @@ def oracles_keytab(line, real_out):
     return [{'prop': q, 'ok': bad is None, 'expected': 'as the reference decoder', 'observed': bad or 'ok', 'what': what} for q in ('C07', 'C08', 'C13', 'C14')], []
 
 
+def real_keyobs(line):
+    """pack() of one item with ANOTHER item packed and decoded in the middle of it (at the n-th line executed): items share
+    nothing, so the bytes are this item's"""
+    p = line.split('|')
+    g, i, bits, sg, v, at = int(p[1]), int(p[2]), int(p[3]), p[4] == '1', int(p[5]), int(p[6])
+    item = CfgKeyData('x', g, i, bits, v, sg)
+    other = CfgKeyData('y', 0x31, 0x0e, 32 if bits != 32 else 16, 12345, False)
+
+    def meanwhile():
+        data = other.pack()
+        CfgKeyData('z').unpack(bytearray(data))
+    try:
+        return bytes(realenv.interleaved(item.pack, at, meanwhile)).hex()
+    except Exception as e:
+        return 'EXC:' + exc_name(e)
+
+
 def real_key(line):
     p = line.split('|')
     try:
+        if p[0] == 'keyobs':
+            return real_keyobs(line)
         if p[0] == 'keytab':
             return real_keytab(line)
         if p[0] == 'keyseq':
@@ -1186,7 +1278,13 @@ def oracles_keyseq(line, real_out):
     return recs, []
 
 
+def model_line_key(line):
+    p = line.split('|')
+    return '|'.join(['keypack'] + p[1:6]) if p[0] == 'keyobs' else line
+
+
 def oracles_key(line, real_out):
+    line = model_line_key(line)
     p = line.split('|')
     if p[0] == 'keytab':
         return oracles_keytab(line, real_out)
@@ -1305,6 +1403,9 @@ def gen_keytab(rng, n):
 
 def gen_key(rng, n, profile):
     yield from gen_keytab(rng, max(20, n // 5))
+    for bits, sg, v in [(1, 0, 1), (8, 1, -3), (16, 0, 250), (16, 1, -100), (32, 0, 70000), (64, 1, -5)]:
+        for at in (1, 3, 5, 8, 11, 14, 17, 20, 24, 28):
+            yield f'keyobs|{rng.randrange(256)}|{rng.randrange(4096)}|{bits}|{sg}|{v}|{at}'
     keys = published_keys()
     # exhaustive: size code 0..7 x available value bytes 0..9 x value patterns x reserved bits set/clear
     for code in range(8):
@@ -1356,6 +1457,12 @@ def gen_key(rng, n, profile):
             else:
                 ops.append(f'Z{rng.randrange(2)}')
         yield 'keyseq|' + ';'.join(ops + ['P'])
+    # the same object packed, ONE attribute changed to a value with the same hash() as the old one (-1 / -2; n / n + 2**61 - 1;
+    # 0 / 2**61 - 1), packed again: whatever is remembered about the object must not be keyed on hashes
+    M = (1 << 61) - 1
+    for a, b, bits, sg in [(-1, -2, 16, 1), (-2, -1, 8, 1), (-1, -2, 32, 1), (-2, -1, 64, 1), (5, 5 + M, 64, 0), (0, M, 64, 0), (M, 0, 64, 1), (1, 1 + M, 64, 1)]:
+        yield f'keyseq|B{bits};Z{sg};V{a};P;V{b};P;V{a};P'
+        yield f'keyseq|B{bits};Z{sg};V{a};P;S;V{b};S;P'
     for bits in (1, 8, 16, 32, 64):
         for sg in (0, 1):
             for g in (0, 1, 0x7f, 0xff):
@@ -1702,7 +1809,14 @@ def real_helper(line):
         if p[1] == 'rate':
             from ubxlib.ubx_cfg_rate import UbxCfgRate
             f = UbxCfgRate.construct(bytearray(bytes.fromhex(p[3])))
-            f.set_rate_in_hz(int(p[2]))
+            if '/' in p[2]:
+                # a rate in range that is no whole number, as the caller may hold it: a float (exact: the denominator is a power
+                # of two), a Fraction, a Decimal
+                a, b = map(int, p[2].split('/'))
+                k = zlib.crc32(line.encode()) % 3
+                f.set_rate_in_hz(a / b if k == 0 else fractions.Fraction(a, b) if k == 1 else decimal.Decimal(a) / decimal.Decimal(b))
+            else:
+                f.set_rate_in_hz(dress(int(p[2]), line))
         elif p[1] in ('save', 'reset'):
             from ubxlib.ubx_cfg_cfg import UbxCfgCfgAction
             f = start_frame(UbxCfgCfgAction, p[3] if len(p) > 3 else '-')
@@ -1756,7 +1870,13 @@ def oracles_helper(line, real_out):
     p = line.split('|')
     what = 'the helper sets exactly the fields and values the u-blox protocol prescribes'
     exp, spec = None, []
-    if p[1] == 'rate':
+    if p[1] == 'rate' and '/' in p[2]:
+        (a, b), pl = map(int, p[2].split('/')), bytes.fromhex(p[3])
+        if b <= a <= 10 * b and len(pl) == 6:
+            exp = (le(1000 * b // a, 2) + le(1, 2) + pl[4:6]).hex()
+            spec.append({'line': f'rate|{a}/{b}', 'expect': f'{1000 * b // a},1'})
+            what = 'the navigation-rate helper sets the period the protocol prescribes for every rate in range, whole or not'
+    elif p[1] == 'rate':
         r, pl = int(p[2]), bytes.fromhex(p[3])
         if 1 <= r <= 10 and len(pl) == 6:
             exp = (le(1000 // r, 2) + le(1, 2) + pl[4:6]).hex()
@@ -1804,6 +1924,9 @@ def gen_helper(rng, n, profile):
     for r in range(0, 12):
         for pl in ('e80301000100', '000000000000', 'ffffffffffff'):
             yield f'helper|rate|{r}|{pl}'
+    for b in (2, 4, 8, 16, 64):
+        for a in sorted({b, b + 1, 2 * b + 1, 5 * b // 2, 25 * b // 4, 10 * b - 1, 10 * b, 10 * b + 1, b - 1, 7 * b // 2 + 1}):
+            yield f'helper|rate|{a}/{b}|e80301000100'
     def init(size):
         """'-' = a fresh frame; otherwise the payload the frame was decoded from (a frame used before: no field is zero)"""
         return rng.choice(['-', bytes([0xff] * size).hex(), bytes(rng.randrange(1, 256) for _ in range(size)).hex()])
@@ -1961,11 +2084,11 @@ def gen_render(rng, n, profile):
 COMPONENTS = {
     'frame': {'real': real_frame, 'oracles': oracles_frame, 'gen': gen_frame, 'model_line': model_line_frame},
     'ck': {'real': real_ck, 'oracles': oracles_ck, 'gen': gen_ck},
-    'fields': {'real': real_fields, 'oracles': oracles_fields, 'gen': gen_fields},
+    'fields': {'real': real_fields, 'oracles': oracles_fields, 'gen': gen_fields, 'model_line': model_line_fields},
     'ch': {'real': real_ch, 'oracles': oracles_ch, 'gen': gen_ch},
     'subitem': {'real': real_subitem, 'oracles': oracles_subitem, 'gen': gen_subitem},
     'assign': {'real': real_assign, 'oracles': oracles_assign, 'gen': gen_assign},
-    'key': {'real': real_key, 'oracles': oracles_key, 'gen': gen_key},
+    'key': {'real': real_key, 'oracles': oracles_key, 'gen': gen_key, 'model_line': model_line_key},
     'valset': {'real': real_valset, 'oracles': oracles_valset, 'gen': gen_valset, 'model_line': model_line_valset},
     'gnss': {'real': real_gnss, 'oracles': oracles_gnss, 'gen': gen_gnss},
     'helper': {'real': real_helper, 'oracles': oracles_helper, 'gen': gen_helper, 'model_line': model_line_helper},
